@@ -70,7 +70,7 @@ def gen_lit(rng, for_type=None):
                 Lit("TRUE", "T"), Lit("OFF", "F"), Lit("'it''s'", "s" + hexs("it's")), Lit("'hello world'", "s" + hexs("hello world")), Lit("utf8", "X"),
                 # values that compare equal in Python though they are different values of different types (1 == True == 1.0):
                 # each assignment stores the text of ITS OWN value, whatever equal value anybody assigned before
-                Lit("1", "i1"), Lit("1.0", "f1:1:" + hexs("1.0")), Lit("0", "i0"), Lit("0.0", "f0:1:" + hexs("0.0")), Lit("FALSE", "F"), Lit("ON", "T"),
+                Lit("1", "i1"), Lit("1.0", "f1:0:" + hexs("1.0")), Lit("0", "i0"), Lit("0.0", "f0:1:" + hexs("0.0")), Lit("FALSE", "F"), Lit("ON", "T"),
                 # strings that spell keywords are strings
                 Lit("'OFF'", "s" + hexs("OFF")), Lit("'on'", "s" + hexs("on")), Lit("'Default'", "s" + hexs("Default")), Lit("'NULL'", "s" + hexs("NULL"))],
         "charset": [Lit("'utf8mb4'", "s" + hexs("utf8mb4")), Lit("'latin1'", "s" + hexs("latin1")), Lit("'utf8'", "s" + hexs("utf8")), Lit("'ascii'", "s" + hexs("ascii")),
